@@ -24,6 +24,23 @@ def drop_empty_text(tree):
     return tree
 
 
+def merge_texts(tree):
+    """the same projected tree with adjacent text nodes merged (a dropped comment between two texts joins them)"""
+    if isinstance(tree, list):
+        out = []
+        for x in tree:
+            x = merge_texts(x)
+            if isinstance(x, dict) and set(x) == {"text"} and out and isinstance(out[-1], dict) and set(out[-1]) == {"text"} \
+                    and isinstance(x["text"], str) and isinstance(out[-1]["text"], str):
+                out[-1] = {"text": out[-1]["text"] + x["text"]}
+            else:
+                out.append(x)
+        return out
+    if isinstance(tree, dict):
+        return {k: merge_texts(v) for k, v in tree.items()}
+    return tree
+
+
 def static_events(tree):
     """the same projected tree with the isDynamic flag of every event binding cleared"""
     if isinstance(tree, list):
@@ -34,6 +51,15 @@ def static_events(tree):
             o["events"] = [e[:5] + [False] + e[6:] if isinstance(e, list) and len(e) >= 6 else e for e in tree["events"]]
         return o
     return tree
+
+
+FN = {"$": "fn", "name": "id"}
+SHAPE_ENVS = [
+    {"a": "s", "b": 2, "c": 3, "x": 1, "y": 2, "z": 4, "f": FN, "k": "k", "s": "t"},
+    {"a": 0.1, "b": 0.2, "c": 0.3, "x": 0.7, "y": 0.1, "z": 0.2, "f": FN, "k": 3, "s": 1.5},
+    {"a": 1e16, "b": -1e16, "c": 1, "x": 3, "y": 1e16, "z": -1e16, "f": FN, "k": 7, "s": 2},
+    {"a": None, "b": {"$": "undefined"}, "c": "", "x": 0, "y": "0", "z": False, "f": FN, "k": None, "s": ""},
+]
 
 
 def kinds_above_note(ws):
@@ -104,6 +130,10 @@ def run(chk):
         srcs.append('<v title="{{ %s }}" data-k="p{{ %s }}q">{{ %s }}</v>' % (e, e, e))
         srcs.append("<v wx:if=\"{{ %s }}\">t</v><v wx:else>e</v><block wx:for=\"{{ %s }}\">{{index}}</block>" % (e, e))
         nshape += 2
+    for t_ in ['<v>&#123;{{a}}</v>', '<v title="x&#123;{{a}}&#125;"/>', '<v>{{a}}&#125;}</v>', '<v>a{ {{b}} }{</v>', '<v>&lt;{{a}}&gt;&amp;{{b}}&quot;</v>',
+               '<v title="Search &quot;{{k}}&quot;"/>', "<v title='it&#39;s \"{{k}}\"'/>", '<v>{{a}}{{b}}</v>', '<v> {{a}} </v>', '<v>\n{{a}}\n</v>']:
+        srcs.append(t_)
+        nshape += 1
     chk.bump("oracle:expression-shapes", nshape)
     first = core.run_harness([core.req("group", json.dumps({"files": [["p", s]]})) for s in srcs], timeout=3600)
     s1s, meta = [], []
@@ -142,6 +172,15 @@ def run(chk):
                 w = [w for w in o1["warnings"] if w[1] in new][0]
                 chk.violation("input", f"the printed text gets a new diagnostic above Note: {w[7]} (level {w[2]}) at {w[3]}:{w[4]}", template=t[:3000], printed=s1[:3000])
         if isinstance(o0.get("gen_groups"), str) and isinstance(o1.get("gen_groups"), str) and (wellformed or not kinds_above_note(o0["warnings"])):
+            if i >= n:
+                # expression shapes: environments that tell every association apart (a string on the left of numbers, floats whose
+                # sums depend on the grouping, big magnitudes), then the nullish / falsy one
+                for D0 in (SHAPE_ENVS if not quick else SHAPE_ENVS[:2] + [SHAPE_ENVS[2 + i % 2]]):
+                    steps = [{"create": D0}]
+                    rreqs.append({"op": "render", "gen_groups": o0["gen_groups"], "path": "p", "steps": steps})
+                    rreqs.append({"op": "render", "gen_groups": o1["gen_groups"], "path": "p", "steps": steps})
+                    rmeta.append((i, s1, steps))
+                continue
             D0 = render.DATA_POOL[i % len(render.DATA_POOL)]
             D1 = up.mutate_data(rng.fork(("d", i)), D0, focus=[k for k in D0 if k in t])
             u = up.tree_to_req(up.diff_tree(D0, D1))
@@ -164,6 +203,10 @@ def run(chk):
                 cls = "string-literal-event-handler-becomes-static"
             elif json.dumps(static_events(drop_empty_text(ta))) == json.dumps(static_events(drop_empty_text(tb))):
                 cls = "empty-string-binding-text-node-dropped+string-literal-event-handler-becomes-static"
+            elif json.dumps(merge_texts(ta)) == json.dumps(merge_texts(tb)):
+                cls = "comment-between-texts-dropped"
+            elif json.dumps(static_events(drop_empty_text(merge_texts(ta)))) == json.dumps(static_events(drop_empty_text(merge_texts(tb)))):
+                cls = "comment-between-texts-dropped+other-known"
             if nb <= 6 or cls != "behaviour":
                 chk.violation("input", "the re-parsed printed template renders / updates differently from the original", classification=cls,
                               template=srcs[i][:3000], printed=s1[:3000], steps=steps, original=ta, reparsed=tb)
